@@ -984,6 +984,7 @@ def _replace_node(root, old, new):
 _OPERATOR = {'and_': ast.BitAnd, 'or_': ast.BitOr, 'xor': ast.BitXor, 'add': ast.Add, 'sub': ast.Sub, 'mul': ast.Mult,
              'lshift': ast.LShift, 'rshift': ast.RShift, 'floordiv': ast.FloorDiv, 'truediv': ast.Div, 'mod': ast.Mod,
              }
+_OPERATOR_CMP = {'eq': ast.Eq, 'ne': ast.NotEq, 'lt': ast.Lt, 'le': ast.LtE, 'gt': ast.Gt, 'ge': ast.GtE, 'is_': ast.Is, 'is_not': ast.IsNot}
 _OPERATOR_INPLACE = {'iand': ast.BitAnd, 'ior': ast.BitOr, 'ixor': ast.BitXor, 'iadd': ast.Add, 'isub': ast.Sub, 'imul': ast.Mult,
                      'ilshift': ast.LShift, 'irshift': ast.RShift}
 
@@ -1013,7 +1014,8 @@ def _literal_tables(tree):
             par = parents.get(id(x))
             ok = (isinstance(par, ast.Subscript) and par.value is x and isinstance(par.ctx, ast.Load)) or \
                 (isinstance(par, ast.Compare) and x in par.comparators and all(isinstance(o, (ast.In, ast.NotIn)) for o in par.ops)) or \
-                isinstance(par, (ast.For, ast.comprehension))
+                isinstance(par, (ast.For, ast.comprehension)) or \
+                (isinstance(par, ast.Attribute) and par.attr in ('items', 'keys', 'values', 'get') and isinstance(par.ctx, ast.Load))
             if not ok:
                 out.pop(x.id, None)
     return out
@@ -1091,6 +1093,9 @@ class _OperatorCalls(ast.NodeTransformer):
         if isinstance(f, ast.Name) and f.id == 'getattr' and len(node.args) == 2 and not node.keywords and isinstance(node.args[1], ast.Constant) \
                 and isinstance(node.args[1].value, str) and node.args[1].value.isidentifier() and _pure(node.args[0]):
             return ast.copy_location(ast.Attribute(value=node.args[0], attr=node.args[1].value, ctx=ast.Load()), node)
+        if isinstance(f, ast.Attribute) and isinstance(f.value, ast.Name) and f.value.id == 'operator' and f.attr in _OPERATOR_CMP \
+                and len(node.args) == 2 and not node.keywords:
+            return ast.copy_location(ast.Compare(left=node.args[0], ops=[_OPERATOR_CMP[f.attr]()], comparators=[node.args[1]]), node)
         if isinstance(f, ast.Attribute) and isinstance(f.value, ast.Name) and f.value.id == 'operator' and f.attr in _OPERATOR \
                 and len(node.args) == 2 and not node.keywords:
             return ast.copy_location(ast.BinOp(left=node.args[0], op=_OPERATOR[f.attr](), right=node.args[1]), node)
@@ -1485,6 +1490,7 @@ def undo_renames(mods):
                     out.add(repr(x.value))
             return out
         base_vocab = _baseline_vocab()
+        base_vocab_defaults = _baseline_defaults()
         pairs = {}
         for old in sorted(missing):
             oldname = old.split(':')[1].split('.')[-1]
@@ -1500,6 +1506,8 @@ def undo_renames(mods):
                 a = fn.args
                 if len(a.posonlyargs + a.args) != arity or a.vararg or a.kwarg:
                     continue
+                if len(a.defaults) != base_vocab_defaults.get(old, len(a.defaults)):
+                    continue          # a parameter gained or lost its default: more than a restyling (two functions merged, say)
                 nv = vocab(fn)
                 j = len(ov & nv) / max(1, len(ov | nv))
                 cands.append((j, fn.name))
@@ -1521,6 +1529,14 @@ def undo_renames(mods):
                         x.name = pairs[x.name]
             done.update(pairs)
     return done
+
+
+def _baseline_defaults():
+    try:
+        with open(os.path.join(HERE, 'reason_digests.json')) as fh:
+            return json.load(fh).get('*defaults', {})
+    except (OSError, ValueError):
+        return {}
 
 
 def _baseline_vocab():
@@ -1653,6 +1669,164 @@ def unroll_tables(mods):
     return touched
 
 
+# ---------------------------------------------------------------------------------------------- generated methods
+class _FoldFStrings(ast.NodeTransformer):
+    def visit_JoinedStr(self, node):
+        self.generic_visit(node)
+        out = ''
+        for v in node.values:
+            if isinstance(v, ast.Constant) and isinstance(v.value, str):
+                out += v.value
+            elif isinstance(v, ast.FormattedValue) and isinstance(v.value, ast.Constant) and isinstance(v.value.value, str) \
+                    and v.conversion == -1 and v.format_spec is None:
+                out += v.value.value
+            else:
+                return node
+        return ast.copy_location(ast.Constant(value=out), node)
+
+
+def _factory_parts(fn):
+    """A closure factory: a plain module-level function whose statements are nested defs (possibly under tests of its own
+    parameters), attribute assignments on them (`method.__name__ = name`) and `return <that def>`.  Returns True if so."""
+    a = fn.args
+    if fn.decorator_list or a.vararg or a.kwarg:
+        return False
+    body = [s for s in fn.body if not (isinstance(s, ast.Expr) and isinstance(s.value, ast.Constant))]
+
+    def ok(stmts):
+        names = set()
+        for st in stmts:
+            if isinstance(st, ast.FunctionDef):
+                names.add(st.name)
+            elif isinstance(st, ast.If):
+                if not (ok(st.body) and (not st.orelse or ok(st.orelse))):
+                    return False
+            elif isinstance(st, ast.Assign) and len(st.targets) == 1 and isinstance(st.targets[0], ast.Attribute) and isinstance(st.targets[0].value, ast.Name) \
+                    and st.targets[0].attr in ('__name__', '__qualname__', '__doc__'):
+                continue
+            elif isinstance(st, ast.Return) and isinstance(st.value, ast.Name):
+                continue
+            else:
+                return False
+        return True
+    return bool(body) and ok(body) and any(isinstance(x, ast.FunctionDef) for x in ast.walk(fn) if x is not fn) and \
+        any(isinstance(x, ast.Return) for x in body + [y for b in body if isinstance(b, ast.If) for y in ast.walk(b)])
+
+
+def _instantiate_factory(fn, call, new_name):
+    """The def the factory returns for this call, under the name it is installed as; None if that is not evident."""
+    params = [x.arg for x in fn.args.posonlyargs + fn.args.args]
+    kwonly = [x.arg for x in fn.args.kwonlyargs]
+    defaults = dict(zip(reversed(params), reversed(fn.args.defaults)))
+    kwdefaults = {k: d for k, d in zip(kwonly, fn.args.kw_defaults) if d is not None}
+    if any(isinstance(x, ast.Starred) for x in call.args) or any(k.arg is None for k in call.keywords) or len(call.args) > len(params):
+        return None
+    bind = dict(zip(params, call.args))
+    for k in call.keywords:
+        if k.arg in bind or k.arg not in params + kwonly:
+            return None
+        bind[k.arg] = k.value
+    for p_ in params + kwonly:
+        if p_ not in bind:
+            d = defaults.get(p_, kwdefaults.get(p_))
+            if d is None:
+                return None
+            bind[p_] = d
+    if not all(_pure(v) for v in bind.values()):
+        return None
+    body = [copy.deepcopy(s) for s in fn.body if not (isinstance(s, ast.Expr) and isinstance(s.value, ast.Constant))]
+    sub = _Subst(bind)
+    body = _prune([sub.visit(b) for b in body])
+    defs = [b for b in body if isinstance(b, ast.FunctionDef)]
+    rets = [b for b in body if isinstance(b, ast.Return)]
+    if any(isinstance(b, ast.If) for b in body) or len(rets) != 1 or not isinstance(rets[0].value, ast.Name):
+        return None
+    chosen = [d for d in defs if d.name == rets[0].value.id]
+    if len(chosen) != 1:
+        return None
+    d = chosen[-1]
+    d.name = new_name
+    d.decorator_list = []
+    return d
+
+
+def materialise_generated_methods(mods):
+    """Methods produced by a closure factory and installed by assignment in the class body (`__and__ = _binary('__and__', op)`)
+    or by `setattr(Class, '<name>', factory(...))` at module level (also from a loop over a literal table) are written out as the
+    ordinary methods they are.  Returns the (module, 'Class.name') pairs created."""
+    made = set()
+    for mod, tree in mods.items():
+        if mod == 'luts':
+            continue
+        factories = {n.name: n for n in tree.body if isinstance(n, ast.FunctionDef) and _factory_parts(n)}
+        if not factories:
+            continue
+        classes = {n.name: n for n in tree.body if isinstance(n, ast.ClassDef)}
+        tabs = _literal_tables(tree)
+        # module-level loops over literal tables, written out
+        new_body = []
+        for st in tree.body:
+            rows = None
+            if isinstance(st, ast.For) and not st.orelse:
+                it = st.iter
+                if isinstance(it, ast.Call) and isinstance(it.func, ast.Attribute) and it.func.attr == 'items' and isinstance(it.func.value, ast.Name) \
+                        and isinstance(tabs.get(it.func.value.id), ast.Dict) and isinstance(st.target, ast.Tuple) and len(st.target.elts) == 2:
+                    d = tabs[it.func.value.id]
+                    rows = [(k, v) for k, v in zip(d.keys, d.values)]
+                elif isinstance(it, ast.Name) and isinstance(tabs.get(it.id), ast.Tuple) and isinstance(st.target, ast.Tuple) and all(
+                        isinstance(r, ast.Tuple) and len(r.elts) == len(st.target.elts) for r in tabs[it.id].elts):
+                    rows = [tuple(r.elts) for r in tabs[it.id].elts]
+                elif isinstance(it, (ast.Tuple, ast.List)) and isinstance(st.target, ast.Tuple) and all(
+                        isinstance(r, ast.Tuple) and len(r.elts) == len(st.target.elts) for r in it.elts):
+                    rows = [tuple(r.elts) for r in it.elts]
+            uses_factory = rows is not None and any(isinstance(x, ast.Call) and isinstance(x.func, ast.Name) and x.func.id in factories for x in ast.walk(st))
+            if uses_factory and all(isinstance(t, ast.Name) for t in st.target.elts) and len(rows) <= 32 \
+                    and not any(isinstance(y, (ast.Break, ast.Continue)) for y in ast.walk(st)):
+                names = [t.id for t in st.target.elts]
+                for r in rows:
+                    sb = _Subst(dict(zip(names, r)))
+                    new_body.extend(_FoldFStrings().visit(sb.visit(copy.deepcopy(b))) for b in st.body)
+                continue
+            new_body.append(st)
+        tree.body = new_body
+        # installs
+        keep = []
+        for st in tree.body:
+            done = False
+            if isinstance(st, ast.Expr) and isinstance(st.value, ast.Call) and isinstance(st.value.func, ast.Name) and st.value.func.id == 'setattr' \
+                    and len(st.value.args) == 3 and isinstance(st.value.args[0], ast.Name) and st.value.args[0].id in classes:
+                nm = _FoldFStrings().visit(copy.deepcopy(st.value.args[1]))
+                v = st.value.args[2]
+                if isinstance(nm, ast.Constant) and isinstance(nm.value, str) and nm.value.isidentifier() and isinstance(v, ast.Call) \
+                        and isinstance(v.func, ast.Name) and v.func.id in factories:
+                    d = _instantiate_factory(factories[v.func.id], _FoldFStrings().visit(copy.deepcopy(v)), nm.value)
+                    cls = classes[st.value.args[0].id]
+                    if d is not None and not any(isinstance(k, ast.FunctionDef) and k.name == nm.value for k in cls.body):
+                        cls.body.append(d)
+                        made.add((mod, f'{mod}:{cls.name}.{nm.value}'))
+                        done = True
+            if not done:
+                keep.append(st)
+        tree.body = keep
+        for cls in classes.values():
+            nb = []
+            for st in cls.body:
+                if isinstance(st, ast.Assign) and len(st.targets) == 1 and isinstance(st.targets[0], ast.Name) and isinstance(st.value, ast.Call) \
+                        and isinstance(st.value.func, ast.Name) and st.value.func.id in factories:
+                    d = _instantiate_factory(factories[st.value.func.id], st.value, st.targets[0].id)
+                    if d is not None:
+                        nb.append(d)
+                        made.add((mod, f'{mod}:{cls.name}.{d.name}'))
+                        continue
+                nb.append(st)
+            cls.body = nb
+        # factories nothing refers to any more go
+        if any(m_ == mod for m_, _k in made):
+            refs = {x.id for x in ast.walk(tree) if isinstance(x, ast.Name) and isinstance(x.ctx, ast.Load)}
+            tree.body = [n for n in tree.body if not (isinstance(n, ast.FunctionDef) and n.name in factories and n.name not in refs)]
+    return made
+
+
 def integrate(mods, src):
     """Inline new helpers in place.  Returns {module: {function name: original def line}} for the modules that changed
     (their trees are re-parsed from the rewritten text, so line numbers inside them are synthetic)."""
@@ -1663,6 +1837,10 @@ def integrate(mods, src):
         unrolled = unroll_tables(mods)
     except Exception:
         unrolled = set()
+    try:
+        unrolled |= materialise_generated_methods(mods)
+    except Exception:
+        pass
     if unrolled:
         # an unrolled function may now be recognisable as the (renamed) function of the reviewed tree it replaces
         try:
@@ -1706,4 +1884,4 @@ def integrate(mods, src):
             ast.fix_missing_locations(mods[mod])
             mods[mod] = ast.parse(ast.unparse(mods[mod]))
             out[mod] = {}
-    return out, inl.done + sorted(f'{k} (table loop unrolled)' for _m, k in unrolled)
+    return out, inl.done + sorted(f'{k} (written out)' for _m, k in unrolled)
